@@ -70,18 +70,77 @@ type hitRec struct {
 // buildRouter registers defs in order on a fresh router. The i-th route's
 // handler writes "<i>|<params>" and records the hit in rec.
 func buildRouter(defs []refmodel.RouteDef, rec *hitRec, opts ...func(*rux.Router)) (r *rux.Router, pv any) {
+	return buildRouterVia(defs, nil, rec, opts...)
+}
+
+// registration APIs a route can come in through
+var regAPIs = []string{"Add", "AddRoute(NewRoute)", "AddNamed", "NewRoute.AttachTo", "method-helper", "WithOptions-then-Add"}
+
+// buildRouterVia registers route i through the API named via[i] ("" = Add). "method-helper" uses r.GET / r.POST ... per
+// method (one registration per method: only for single-method routes, else Add); "WithOptions-then-Add" applies the
+// options through WithOptions after New().
+func buildRouterVia(defs []refmodel.RouteDef, via []string, rec *hitRec, opts ...func(*rux.Router)) (r *rux.Router, pv any) {
 	pv = try(func() {
-		r = rux.New(opts...)
+		late := false
+		for _, v := range via {
+			if v == "WithOptions-then-Add" {
+				late = true
+			}
+		}
+		if late {
+			r = rux.New()
+			r.WithOptions(opts...)
+		} else {
+			r = rux.New(opts...)
+		}
 		for i, d := range defs {
 			i := i
-			rt := r.Add(d.Path, func(c *rux.Context) {
+			h := func(c *rux.Context) {
 				if rec != nil {
 					rec.idx = i
 					rec.params = canonParams(c.Params)
 					rec.n++
 				}
 				c.WriteString(fmt.Sprintf("%d|%s", i, canonParams(c.Params)))
-			}, d.Methods...)
+			}
+			api := ""
+			if i < len(via) {
+				api = via[i]
+			}
+			var rt *rux.Route
+			switch api {
+			case "AddRoute(NewRoute)":
+				rt = r.AddRoute(rux.NewRoute(d.Path, h, d.Methods...))
+			case "AddNamed":
+				rt = r.AddNamed(fmt.Sprintf("n%d", i), d.Path, h, d.Methods...)
+			case "NewRoute.AttachTo":
+				rt = rux.NewNamedRoute(fmt.Sprintf("n%d", i), d.Path, h, d.Methods...)
+				rt.AttachTo(r)
+			case "method-helper":
+				if len(d.Methods) == 1 {
+					switch d.Methods[0] {
+					case "GET":
+						rt = r.GET(d.Path, h)
+					case "POST":
+						rt = r.POST(d.Path, h)
+					case "PUT":
+						rt = r.PUT(d.Path, h)
+					case "DELETE":
+						rt = r.DELETE(d.Path, h)
+					case "HEAD":
+						rt = r.HEAD(d.Path, h)
+					case "PATCH":
+						rt = r.PATCH(d.Path, h)
+					case "OPTIONS":
+						rt = r.OPTIONS(d.Path, h)
+					}
+				}
+				if rt == nil {
+					rt = r.Add(d.Path, h, d.Methods...)
+				}
+			default:
+				rt = r.Add(d.Path, h, d.Methods...)
+			}
 			rt.Opts = map[string]any{"i": i}
 		}
 	})
